@@ -29,10 +29,23 @@ impl Process for Rec {
         self.log.lock().unwrap().push((self.name.clone(), d));
         if let Message::Regular { body: OwnedTerm::Atom(a), .. } = &msg {
             if a.as_str() == "die" {
-                return Err(edp_node::Error::InvalidMessage("asked to die".into()));
+                return Err(failure_for(&self.name));
             }
         }
         Ok(())
+    }
+}
+
+/// The error a test process fails with: a different kind for each process name (a handler may fail with any error,
+/// e.g. one it got back from an operation on a connection).
+pub fn failure_for(name: &str) -> edp_node::Error {
+    match name.bytes().last().unwrap_or(0) as usize % 6 {
+        0 => edp_node::Error::InvalidMessage("asked to die".into()),
+        1 => edp_node::Error::Client(edp_client::Error::Io(std::io::Error::new(std::io::ErrorKind::BrokenPipe, "asked to die"))),
+        2 => edp_node::Error::Client(edp_client::Error::Timeout(std::time::Duration::from_secs(1))),
+        3 => edp_node::Error::RpcTimeout(std::time::Duration::from_secs(1)),
+        4 => edp_node::Error::NodeNotConnected("asked@to.die".into()),
+        _ => edp_node::Error::MailboxClosed,
     }
 }
 
@@ -42,7 +55,7 @@ impl Process for SlowTerm {
     async fn handle_message(&mut self, msg: Message) -> edp_node::Result<()> {
         let d = describe(&msg);
         self.log.lock().unwrap().push((self.name.clone(), d));
-        if let Message::Regular { body: OwnedTerm::Atom(a), .. } = &msg { if a.as_str() == "die" { return Err(edp_node::Error::InvalidMessage("asked to die".into())); } }
+        if let Message::Regular { body: OwnedTerm::Atom(a), .. } = &msg { if a.as_str() == "die" { return Err(failure_for(&self.name)); } }
         Ok(())
     }
     async fn terminate(&mut self) { edp_client::verif::point("proc.terminate").await; }
